@@ -68,11 +68,11 @@ class Lock:
         self.f.close()
 
 
-def sh(cmd, timeout=600, cwd=None, env=None, inp=None):
+def sh(cmd, timeout=600, cwd=None, env=None, inp=None, merge_stderr=True):
     """Run a command; returns (rc, stdout+stderr). rc=124 on timeout."""
     try:
         p = subprocess.run(cmd, cwd=cwd, env=env, input=inp, stdout=subprocess.PIPE,
-                           stderr=subprocess.STDOUT, timeout=timeout,
+                           stderr=subprocess.STDOUT if merge_stderr else subprocess.DEVNULL, timeout=timeout,
                            shell=isinstance(cmd, str))
         return p.returncode, p.stdout.decode("utf-8", "replace")
     except subprocess.TimeoutExpired as ex:
@@ -191,14 +191,14 @@ class Ctx:
             self.log("harness built in %.1fs" % (time.time() - t))
         return BIN
 
-    def vh(self, prog, args, inp=None, timeout=600, env=None):
+    def vh(self, prog, args, inp=None, timeout=600, env=None, merge_stderr=True):
         e = env_with_go()
         if env:
             e.update(env)
         if isinstance(inp, str):
             inp = inp.encode()
         return sh([os.path.join(BIN, prog)] + list(args), timeout=timeout, env=e, inp=inp,
-                  cwd=self.work)
+                  cwd=self.work, merge_stderr=merge_stderr)
 
     # ------------------------------------------------------------------ step 2: translators
     def translate(self):
